@@ -9,6 +9,7 @@ import (
 	"strings"
 
 	"golang.org/x/tools/go/cfg"
+	"golang.org/x/tools/go/ssa"
 )
 
 func init() {
@@ -437,6 +438,23 @@ func isFailingExpectPeek(pm *parserModel, ifs *ast.IfStmt) bool {
 	return false
 }
 
+// failingCallForcesReturn: the if's body leaves the function and its condition
+// is a disjunction one of whose alternatives ends in `!call` (so that, when
+// the call is reached and fails, the body runs).
+func failingCallForcesReturn(ifs *ast.IfStmt, call *ast.CallExpr) bool {
+	if !terminates(ifs.Body.List) {
+		return false
+	}
+	for _, d := range disjuncts(ifs.Cond) {
+		cj := conjuncts(d)
+		last := unparen(cj[len(cj)-1])
+		if u, ok := last.(*ast.UnaryExpr); ok && u.Op == token.NOT && unparen(u.X) == ast.Expr(call) {
+			return true
+		}
+	}
+	return false
+}
+
 // ---- R4 ---------------------------------------------------------------------
 
 func expectPeekIdiomRule(r *Run, rule string) {
@@ -460,7 +478,7 @@ func expectPeekIdiomRule(r *Run, rule string) {
 			var child ast.Node = c
 			for p := w.Parent(c); p != nil; child, p = p, w.Parent(p) {
 				if ifs, isIf := p.(*ast.IfStmt); isIf {
-					if child == ast.Node(ifs.Cond) && isFailingExpectPeek(pm, ifs) {
+					if child == ast.Node(ifs.Cond) && failingCallForcesReturn(ifs, c) {
 						ok = true
 					}
 					break
@@ -705,15 +723,37 @@ func errorsAreValuesRule(r *Run, rule string) {
 	}
 }
 
-func appendsError(pm *parserModel, f *FuncInfo) bool {
+// appendsError: f writes the parser's error list, directly or through a
+// parser method it calls (a formatting recorder such as errorf).
+func appendsError(pm *parserModel, f *FuncInfo) bool { return appendsErrorD(pm, f, 0) }
+
+func appendsErrorD(pm *parserModel, f *FuncInfo, depth int) bool {
+	if f == nil || depth > 3 {
+		return false
+	}
+	return stmtsRecordError(pm, f.Decl.Body, depth)
+}
+
+// stmtsRecordError: the statements under n append to the error list (possibly via a recorder method).
+func stmtsRecordError(pm *parserModel, n ast.Node, depth int) bool {
 	found := false
-	inspectBody(f.Decl.Body, false, func(n ast.Node) bool {
-		if as, ok := n.(*ast.AssignStmt); ok && len(as.Lhs) == 1 {
-			if _, fld := fieldOf(pm.info, as.Lhs[0]); fld == pm.errorsF {
-				found = true
+	inspectBody(n, false, func(x ast.Node) bool {
+		switch s := x.(type) {
+		case *ast.AssignStmt:
+			if len(s.Lhs) == 1 {
+				if _, fld := fieldOf(pm.info, s.Lhs[0]); fld == pm.errorsF {
+					found = true
+				}
+			}
+		case *ast.CallExpr:
+			if g := pm.w.FuncOf(calleeOf(pm.info, s)); g != nil && g.Rel == "parser" && depth < 3 {
+				sig := g.Obj.Type().(*types.Signature)
+				if sig.Recv() != nil && sig.Results().Len() == 0 && appendsErrorD(pm, g, depth+1) {
+					found = true
+				}
 			}
 		}
-		return true
+		return !found
 	})
 	return found
 }
@@ -761,6 +801,8 @@ func otherPanicsRule(r *Run, rule string, m *lexerModel) {
 					con := "index " + short(w.Fset, x)
 					if why := indexDischarged(w, info, f, x, m); why != "" {
 						r.Ok(rule, f.Name(), con, w.Pos(x.Pos()), why)
+					} else if why := ledgerDischarges(w, f, x.Lbrack, x.Pos(), x.End()); why != "" {
+						r.Ok(rule, f.Name(), con, w.Pos(x.Pos()), why)
 					} else {
 						r.Bad(rule, f.Name(), con, w.Pos(x.Pos()), "index expression without an established bound")
 					}
@@ -769,6 +811,43 @@ func otherPanicsRule(r *Run, rule string, m *lexerModel) {
 			})
 		}
 	}
+}
+
+// ledgerDischarges: every index/slice obligation of the SSA form of f that
+// lies within [from, to) of the source is discharged by the panic-obligation
+// ledger (difference constraints over dominating comparisons, induction
+// variables, len/Split facts). Returns the justification, or "".
+func ledgerDischarges(w *World, f *FuncInfo, at, from, to token.Pos) string {
+	fn := w.SSAFunc(f)
+	if fn == nil {
+		return ""
+	}
+	lg := newLedger(w, fn)
+	n := 0
+	var hows []string
+	for _, ob := range lg.collect() {
+		switch ob.ins.(type) {
+		case *ssa.IndexAddr, *ssa.Index, *ssa.Lookup, *ssa.Slice:
+		default:
+			continue
+		}
+		p := ob.ins.Pos()
+		if p != at && !(p >= from && p < to) {
+			continue
+		}
+		n++
+		for _, pr := range ob.preds {
+			ok, why := pr.prove()
+			if !ok {
+				return ""
+			}
+			hows = append(hows, why)
+		}
+	}
+	if n == 0 {
+		return ""
+	}
+	return "bounds ledger: " + strings.Join(hows, "; ")
 }
 
 func assertedFromLiteral(w *World, info *types.Info, f *FuncInfo, ta *ast.TypeAssertExpr) bool {
